@@ -23,6 +23,7 @@ per channel, per connection list), then asks for round trips:
                           x = foreign connections are not stored, o = load() takes the channels over;
                           prints the observation
     fileload <cfg> <x> <o> <v> [cls]
+    inplace <label> <cfg> <k>   child <label> of the current graph does save(); load() in place (k = load keeps its place)
 -/
 
 structure Row where
@@ -268,6 +269,11 @@ def step (s : St) (ws : List String) : St × List String :=
     match parseCfg w, parseBool x, parseBool o, parseBool vw, cls.toNat? with
     | some cfg, some x, some o, some vw, some cls => roundTrip s cfg x o vw true (some cls)
     | _, _, _, _, _ => bad
+  | ["inplace", l, w, k] =>
+    -- the child labelled <l> of the current graph loads, in place, the state it has just saved
+    match l.toNat?, parseCfg w, parseBool k, s.cur with
+    | some l, some cfg, some k, some (n, pp) => finish s false (loadInPlace cfg k pp n l)
+    | _, _, _, _ => bad
   | "view" :: ls =>
     match (nats ls).bind pairsOf with
     | some v => ({ s with view := v }, [])
